@@ -80,14 +80,16 @@ func c12Attrs(schema string, i int) []interface{} {
 	}
 	// every NULL pattern over the three attribute columns, cycling with the row number
 	var cnt, area, name interface{}
+	// values: ordinary ones, and (rows 3, 4, 5 mod 6) values that a conversion on the way could damage: an integer
+	// beyond 2^53, zero and negative numbers, a huge real, an empty string (not NULL), quotes and non-ASCII text
 	if i&1 == 0 {
-		cnt = int64(100 + i)
+		cnt = []int64{int64(100 + i), int64(100 + i), int64(100 + i), 1<<53 + 1, 0, -7}[i%6]
 	}
 	if i&2 == 0 {
-		area = 1.5 + float64(i)
+		area = []float64{1.5 + float64(i), 1.5 + float64(i), 1.5 + float64(i), 1e300, 0, -2.25}[i%6]
 	}
 	if i&4 == 0 {
-		name = fmt.Sprintf("n%d", i)
+		name = []string{fmt.Sprintf("n%d", i), fmt.Sprintf("n%d", i), fmt.Sprintf("n%d", i), "", "it's \"quoted\"; -- x", "Ünïcödé \u20ac"}[i%6]
 	}
 	return []interface{}{fid, cnt, area, name}
 }
